@@ -1055,6 +1055,7 @@ func (m *Nitro) LoadFromDisk(dir string, concurr int, callb ItemCallback) (*Snap
 		return nil, err
 	}
 
+	var hasChecksums bool
 	if bs, err := ioutil.ReadFile(filepath.Join(datadir, "checksums.json")); err == nil {
 		if err = json.Unmarshal(bs, &checksums); err != nil {
 			return nil, err
@@ -1062,6 +1063,7 @@ func (m *Nitro) LoadFromDisk(dir string, concurr int, callb ItemCallback) (*Snap
 		if len(checksums) != len(files) {
 			return nil, ErrCorruptSnapshot
 		}
+		hasChecksums = true
 	} else {
 		checksums = make([]uint32, len(files))
 	}
@@ -1130,7 +1132,7 @@ func (m *Nitro) LoadFromDisk(dir string, concurr int, callb ItemCallback) (*Snap
 	close(wchan)
 	wg.Wait()
 	for i, rdr := range readers {
-		if checksums[i] != 0 && checksums[i] != rdr.Checksum() {
+		if hasChecksums && checksums[i] != rdr.Checksum() {
 			return nil, ErrCorruptSnapshot
 		}
 	}
@@ -1161,6 +1163,7 @@ func (m *Nitro) LoadFromDisk(dir string, concurr int, callb ItemCallback) (*Snap
 		errors := make([]error, len(files))
 		writers := make([]*Writer, concurr)
 		deltaChecksums := make([]uint32, len(files))
+		var hasDeltaChecksums bool
 		if bs, err := ioutil.ReadFile(filepath.Join(deltadir, "checksums.json")); err == nil {
 			if err = json.Unmarshal(bs, &deltaChecksums); err != nil {
 				return nil, err
@@ -1168,6 +1171,7 @@ func (m *Nitro) LoadFromDisk(dir string, concurr int, callb ItemCallback) (*Snap
 			if len(deltaChecksums) != len(files) {
 				return nil, ErrCorruptSnapshot
 			}
+			hasDeltaChecksums = true
 		}
 
 		defer func() {
@@ -1238,7 +1242,7 @@ func (m *Nitro) LoadFromDisk(dir string, concurr int, callb ItemCallback) (*Snap
 		wg.Wait()
 
 		for i, rdr := range readers {
-			if deltaChecksums[i] != 0 && deltaChecksums[i] != rdr.Checksum() {
+			if hasDeltaChecksums && deltaChecksums[i] != rdr.Checksum() {
 				return nil, ErrCorruptSnapshot
 			}
 		}
